@@ -27,6 +27,11 @@ def _timing_strings(symx, T, neg_allowed=True):
     dec = lambda m: symx.DecShim._make(z3.ToReal(m) / 1000, (m, 1000))
     bpms = T.BeatValues([T.BeatValue(T.Beat(0), dec(mb0)), T.BeatValue(T.Beat(symx.SymInt(kb), 48), dec(mb1))])
     stops = T.BeatValues([T.BeatValue(T.Beat(symx.SymInt(ks), 48), dec(ms0))])
+    # the sign pattern is split up front (none negative / only the stop / only a BPM / both), so that a counterexample about
+    # one kind of negative value names exactly that kind and replays (token strings carry no '-' character of their own)
+    sg = symx.choose("sgn", 4)
+    symx.CTL.assume((ms0 < 0) if sg in (1, 3) else (ms0 >= 0))
+    symx.CTL.assume(z3.Or(mb0 < 0, mb1 < 0) if sg in (2, 3) else z3.And(mb0 >= 0, mb1 >= 0))
     return str(bpms), str(stops), z3.Or(mb0 < 0, mb1 < 0, ms0 < 0)
 
 
